@@ -386,6 +386,8 @@ func runC15(c *Ctx) {
 			}
 			return false
 		}
+		// the cache code may live in a helper WriteMessage calls
+		w = c.relocateBy(w, func(g *ssa.Function) bool { ins, _ := mapWrites(g, outer); return len(ins) > 0 })
 		c.boundedInsert("G-bound", "WriteMessage|send cache per-hash entries", w, outer, "blocksCache")
 		c.boundedInsert("G-bound", "WriteMessage|send cache variants", w, inner, "blocksCache[hash]")
 		// cached bytes come from a buffer allocated in this call
